@@ -654,3 +654,26 @@ def rule_min_u128(text):
                 return (c.pos(rs), c.end(cl), "vx_min_u128(%s, %s)" % (recv, arg))
         return None
     return rewrite(text, finder)
+
+
+def rule_option_filter(text):
+    """X.filter(F)  ->  match X { Some(__f) => if F(&__f) { Some(__f) } else { None }, None => None }
+    (definition of Option::filter; F a path to a fn or a closure |p| B)"""
+    def finder(c):
+        for k in range(len(c)):
+            if c.seq(k, ".", "filter", "("):
+                cl = c.close(k + 2)
+                rs = _method_call_receiver_start(c, k)
+                recv = c.text[c.pos(rs):c.pos(k)].strip()
+                if c.t(k + 3) == "|":
+                    bar2 = k + 4
+                    while c.t(bar2) != "|": bar2 += 1
+                    pat = c.slice(k + 4, bar2).strip()
+                    body = c.text[c.pos(bar2 + 1):c.pos(cl)].strip()
+                    cond = "{ let %s = &__f; %s }" % (pat, body)
+                else:
+                    cond = "%s(&__f)" % c.slice(k + 3, cl).strip()
+                return (c.pos(rs), c.end(cl),
+                        "(match %s { Some(__f) => if %s { Some(__f) } else { None }, None => None })" % (recv, cond))
+        return None
+    return rewrite(text, finder)
